@@ -274,29 +274,7 @@ private:
             return;
         }
 
-        int entries = this->_info._num_colors;
-
-        if( entries == 0 )
-        {
-            entries = 1u << this->_info._bits_per_pixel;
-        }
-
-		this->_palette.resize( entries, rgba8_pixel_t(0,0,0,0) );
-
-        for( int i = 0; i < entries; ++i )
-        {
-            get_color( this->_palette[i], blue_t()  ) = this->_io_dev.read_uint8();
-            get_color( this->_palette[i], green_t() ) = this->_io_dev.read_uint8();
-            get_color( this->_palette[i], red_t()   ) = this->_io_dev.read_uint8();
-
-            // there are 4 entries when windows header
-            // but 3 for os2 header
-            if( this->_info._header_size == bmp_header_size::_win32_info_size )
-            {
-                this->_io_dev.read_uint8();
-            }
-
-        } // for
+        backend_t::read_palette();
     }
 
     template< typename View >
